@@ -18,8 +18,9 @@
    a variable / {parameter} / <error> term with integer index k becomes ERead (row name) k.  A script becomes the
    list of its statements in the order of the merged SYMBOL list (the order build_model_definition emits them),
    rows numbered as in NAMES = ENDOGENOUS + EXOGENOUS + PARAMETERS + ERRORS.
+   Subtrees of integer literals only are folded on ints, as CPython computes them (fold_ints: -0 is 0).
    Everything outside the subset (keywords, verbatim code, string indexes, comparison operators, other functions,
-   a series that is not declared) yields None: fail-closed, never guessed. *)
+   a series that is not declared, a series whose attribute name CPython mangles) yields None: fail-closed, never guessed. *)
 From Coq Require Import String Ascii List Bool Arith ZArith.
 Import ListNotations.
 Require Import Generated PyBase PyStr Lex Format Symbols Split Merge ParseEq ParseModel Eval.
